@@ -84,11 +84,15 @@ def run():
         corrupt("average", "outy", "C17.average_y")
         corrupt("interval", "to2d", "C17.to_2d_array")
         corrupt("append", "outx", "C17.append_one_sample")
+        corrupt("interval", "iter", "impl.interval_iter")
+        corrupt("interval", "after_fsets", "impl.interval_flat_set")
+        corrupt("interval", "ext_const", "impl.interval_extend_constant")
     c.rule = ("one lattice point = (array a over {-2,0,1,3} or random dyadic values, derived increasing abscissa x, n, "
               "direction); each expands to calls of oversample_linspace/piecewise, extend_linspace (default and explicit "
               "lstart/rstop)/extend_constant, append_one_sample, rectangle/trapezoid integral (direct and dispatcher), "
               "sum_over_indices, IntervalArray get/set for every valid [i,j] incl. negative j, to_2d_array(+closed), "
-              "oversample, process.average; non-trivial = >= 3 elements, >= 2 distinct values, n >= 2; distinct by "
+              "oversample, process.average; beyond the property (drift clauses only): flat integer indices, iteration, repr, "
+              "index arity, extend_linspace / extend_constant through the view, list input; non-trivial = >= 3 elements, >= 2 distinct values, n >= 2; distinct by "
               "(function, array, n, direction, end values, index list)")
     c.coverage_extra = {"lattice_cases_from_tlc": lattice, "random_cases": len(cases) - lattice}
     c.assumptions = ["TLC 1.8, CommunityModules Json/IOUtils", "float results projected to 1e-9 fixed point (round to nearest)",
